@@ -72,6 +72,7 @@ FUNC_KNOWN = z3.Bool("func.known")
 FUNC_VARIANT = z3.Bool("func.jinja_async_variant")
 FUNC_CORO = z3.Bool("func.is_coroutine_function")
 PASS_ARG = z3.Int("func.pass_arg")
+KW_DISJOINT = z3.Bool("explicit keywords disjoint from **dyn_kwargs")
 PASS_VALUES = [None, _PassArg.context, _PassArg.eval_context, _PassArg.environment]
 
 CMP_NAMES = {"eq": "eq", "ne": "ne", "gt": "gt", "gteq": "ge", "lt": "lt", "lteq": "le", "in": "in", "notin": "notin"}
@@ -189,6 +190,11 @@ def install_as_const(I, owner):
         a = args[0]
         if isinstance(a, Ref) and isinstance(st.get(a), HDict):
             return models.instantiate(I_, st, dict, args, kwargs, node)
+        if isinstance(a, Sym) and a.k == "obj":
+            # dict(<constant of unknown value>): the mapping `**value` stands for; TypeError/ValueError when it is not a mapping
+            s2 = st.fork()
+            e = Exc(None, (), tag="dict(value)#notmapping", within=Exception, origin=getattr(node, "lineno", None))
+            return [(s2, Raised(e)), (st, st.alloc(HDict(items={("**",): a})))]
         pairs = list(I_.iter_concrete(st, a, node))
         if all(isinstance(p, tuple) and len(p) == 2 and (isinstance(p[0], str) or (isinstance(p[0], Sym) and p[0].k == "str")) for p in pairs):
             # string keys (keyword arguments) are hashable; the empty mapping is concrete as well
@@ -206,6 +212,79 @@ def install_as_const(I, owner):
     I.specs[("fn", id(dict))] = dict_spec
 
     I.specs["getattr_dyn"] = A.abstract_fn("py.getattr", returns="obj", raises=[("any", Exception)])
+    I.specs["getitem_obj"] = lambda I_, st, args, kwargs, node: A.abstract_fn("py.getitem", returns="obj", raises=[("any", Exception)])(I_, st, args, kwargs, node)
+
+    # a child's constant is an arbitrary object (e.g. a StrictUndefined produced by a folded subscript): taking its truth value or its
+    # str() may raise.  dependency spec: bool(x) / str(x) return or raise some Exception.  The engine's truth() has no exceptional
+    # outcome, so the three constructs that test a value (if / inline if / and-or) are wrapped on THIS interpreter instance.
+    from pyvc.interp import Ctl
+
+    def may_raise_on_truth(st, v, node):
+        if isinstance(v, Sym) and v.k == "obj" and "from:child.as_const" in v.tags:
+            s2 = st.fork()
+            return [(s2, Raised(Exc(None, (), tag="bool(child constant)#", within=Exception, origin=getattr(node, "lineno", None))))]
+        return []
+
+    def st_If(n, st, fr):
+        res = []
+        for s, v in I.ev(n.test, st, fr):
+            if isinstance(v, Raised):
+                res.append((s, Ctl("raise", v.exc)))
+                continue
+            for s_exc, r in may_raise_on_truth(s, v, n):
+                res.append((s_exc, Ctl("raise", r.exc)))
+            for s2, b in I.truth(s, v, fr, n):
+                res.extend(I.exec_block(n.body if b else n.orelse, s2, fr))
+        return res
+
+    I.st_If = st_If
+
+    def ev_IfExp(e, st, fr):
+        out = []
+        for s, c in I.ev(e.test, st, fr):
+            if isinstance(c, Raised):
+                out.append((s, c))
+                continue
+            out.extend(may_raise_on_truth(s, c, e))
+            for s2, b in I.truth(s, c, fr, e):
+                out.extend(I.ev(e.body if b else e.orelse, s2, fr))
+        return out
+
+    I.ev_IfExp = ev_IfExp
+
+    def ev_BoolOp(e, st, fr):
+        is_and = isinstance(e.op, ast.And)
+
+        def go(i, s):
+            out = []
+            for s2, v in I.ev(e.values[i], s, fr):
+                if isinstance(v, Raised) or i == len(e.values) - 1:
+                    out.append((s2, v))
+                    continue
+                out.extend(may_raise_on_truth(s2, v, e))
+                for s3, b in I.truth(s2, v, fr, e):
+                    if b == is_and:
+                        out.extend(go(i + 1, s3))
+                    else:
+                        out.append((s3, v))
+            return out
+
+        return go(0, st)
+
+    I.ev_BoolOp = ev_BoolOp
+
+    def str_obj(I_, st, args, kwargs, node):
+        a = args[0]
+        if "from:child.as_const" in a.tags:
+            s2 = st.fork()
+            e = Exc(None, (), tag="str(child constant)#", within=Exception, origin=getattr(node, "lineno", None))
+            return [(s2, Raised(e)), (st, Sym(models.py_str_obj(a.t), "str", a.tags))]
+        return None
+
+    I.specs["str_obj"] = str_obj
+    # the run-time join helpers, should as_const use them (same function on both sides)
+    I.specs["jinja2.runtime:markup_join"] = A.abstract_fn("markup_join", returns="obj")
+    I.specs["jinja2.runtime:str_join"] = A.abstract_fn("str_join", returns="obj")
 
     # zero-argument super() in Filter.as_const
     def super_spec(I_, st, args, kwargs, node):
@@ -227,6 +306,15 @@ def install_as_const(I, owner):
     base_call_method = I.call_method
 
     def call_method(st, recv, name, args, kwargs, node=None):
+        if name == "isdisjoint" and args and isinstance(args[0], Ref) and isinstance(st.get(args[0]), HDict) and ("**",) in (st.get(args[0]).items or {}):
+            # explicit keyword names vs the keys of **value: unknown at verification time
+            explicit = bool(recv) if isinstance(recv, (list, tuple)) else True
+            if isinstance(recv, (list, tuple)) and not recv:
+                return [(st, True)]
+            s2 = st.fork()
+            st.assume(KW_DISJOINT)
+            s2.assume(z3.Not(KW_DISJOINT))
+            return [(st, True), (s2, False)]
         if isinstance(recv, Ref) and name in ("extend", "update") and args and isinstance(args[0], Sym) and args[0].k == "obj":
             h = st.get(recv)
             if isinstance(h, HList) and h.concrete and name == "extend":
@@ -242,6 +330,17 @@ def install_as_const(I, owner):
         return base_call_method(st, recv, name, args, kwargs, node)
 
     I.call_method = call_method
+
+    # dict.keys() of a concrete mapping is modelled as a tuple; a keys view has isdisjoint
+    base_getattr = I.getattr
+
+    def getattr_(st, obj, name, node=None):
+        if name == "isdisjoint" and isinstance(obj, tuple):
+            from pyvc.values import BoundMethod
+            return [(st, BoundMethod(obj, name))]
+        return base_getattr(st, obj, name, node)
+
+    I.getattr = getattr_
 
 
 # =====================================================================================================
@@ -425,12 +524,19 @@ class Resolver:
                     # kwargs.update(dyn_kwargs): later value wins, whereas f(k=v, **dyn) raises TypeError for a duplicate key;
                     # the two agree only when there is no explicit keyword argument
                     explicit = [kk for kk in e.kwargs if not isinstance(kk, tuple)]
-                    kws.append(("**", (("update-over-explicit-keywords" if explicit else "starstar"), self.value(x))))
+                    merged_blindly = bool(explicit) and not implied(self.st.pc, KW_DISJOINT)
+                    kws.append(("**", (("update-over-explicit-keywords" if merged_blindly else "starstar"), self.value(x))))
                 else:
                     kws.append((self.value(k) if isinstance(k, Sym) else k, self.value(x)))
             return T_call(self.func_term(f), pos, kws)
         if e.name == "py.dict":
             return T_call("py.dict", [("tuple", (self.value(p[0]), self.value(p[1]))) for p in e.args])
+        if e.name in ("markup_join", "str_join") and len(e.args) == 1:
+            seq_ = self.value(e.args[0])
+            items = seq_[1] if seq_[0] in ("list", "tuple") else (seq_,)
+            if e.name == "str_join":
+                return ("concat", tuple(T_call("py.str", [x]) for x in items))
+            return ("concat", ()) if not items else T_call("markup_join", [("tuple", tuple(items))])
         return T_call(e.name, [self.value(a) for a in e.args], [(k, self.value(x)) for k, x in e.kwargs.items()])
 
     def func_term(self, f):
@@ -1662,6 +1768,16 @@ def family():
     return out
 
 
+def strict_family():
+    """operands that fold to an Undefined object: with StrictUndefined their truth value / str() raises"""
+    return [Expr_("Or", "{0}[3] or {1}", "lt", "one"), Expr_("And", "{0}[3] and {1}", "lt", "one"), Expr_("CondExpr", "{1} if {0}[3] else {1}", "lt", "one"),
+            Expr_("Concat", "{0}[3] ~ {1}", "lt", "a"), Expr_("Not", "not {0}[3]", "lt"), Expr_("Compare", "{0}[3] == {1}", "lt", "one"),
+            Expr_("Filter", "{0}[3]|upper", "lt"), Expr_("Tuple", "({0}[3], {1})", "lt", "one"), Expr_("Test", "{0}[3] is defined", "lt"), Expr_("Neg", "-({0}[3])", "lt")]
+
+
+_STRICT = []
+
+
 def finalize_family():
     """constant leaves written directly: drives the output-level constant path with a custom finalize"""
     return [Expr_("Const", "{0}", x) for x in ("none", "lt", "safe", "one", "list")]
@@ -1694,7 +1810,13 @@ def _finalize_tag(v):
     return "[%s]" % (v,)
 
 
-ENVS = {"default": {}, "finalize_none": {"finalize": _finalize_none}, "finalize_tag": {"finalize": _finalize_tag}, "async": {"enable_async": True}}
+def _strict():
+    from jinja2 import StrictUndefined
+    return StrictUndefined
+
+
+ENVS = {"default": {}, "finalize_none": {"finalize": _finalize_none}, "finalize_tag": {"finalize": _finalize_tag}, "async": {"enable_async": True},
+        "strict": {"undefined": _strict()}}
 
 import re as _re
 _ADDR = _re.compile(r" at 0x[0-9a-f]+")
@@ -1775,6 +1897,8 @@ def differential(exprs, placements=None, modes=None, envs=None, limit=None):
                 continue
             if envname.startswith("finalize") and e.cls != "Const":
                 continue
+            if (envname == "strict") != (e in _STRICT):
+                continue
             per_pl = {}
             for pl in placements or PLACEMENTS:
                 if envname.startswith("finalize") and pl != "output":
@@ -1810,6 +1934,7 @@ def extra_templates():
         ("Const", "int-5001-digits", "{% set x = 10 ** 5000 %}{{ x > 1 }}", "{% set x = v ** 5000 %}{{ x > 1 }}", {"v": 10}),
         ("Const", "negative-zero", "{% set x = -0.0 %}{{ x }}", "{% set x = v %}{{ x }}", {"v": -0.0}),
         ("Const", "int-2**100", "{% set x = 2 ** 100 %}{{ x }}", "{% set x = v ** 100 %}{{ x }}", {"v": 2}),
+        ("Const", "negative-power-base", "{{ (1 - 4) ** x }}|{% set y = (0 - 1.5) ** x %}{{ y }}", "{{ (a - b) ** x }}|{% set y = (c - d) ** x %}{{ y }}", {"a": 1, "b": 4, "c": 0, "d": 1.5, "x": 2}),
         ("TemplateData", "data-and-constant", "<b>&amp;{{ '<' }}", "<b>&amp;{{ v }}", {"v": "<"}),
         ("TemplateData", "data-only", "<b>&amp;", "<b>&amp;", {}),
     ]
@@ -1824,8 +1949,8 @@ def differential_extra(only_cls=None):
             res = {}
             for mode, (ae, wrap, mctx) in MODES.items():
                 n += 3
-                res[mode] = {"optimized": (wrap.format(t=const), render_outcome(wrap.format(t=const), dict(mctx), ENVS[envname], True, ae)),
-                             "unoptimized": (wrap.format(t=const), render_outcome(wrap.format(t=const), dict(mctx), ENVS[envname], False, ae)),
+                res[mode] = {"optimized": (wrap.format(t=const), render_outcome(wrap.format(t=const), dict(ctx, **mctx), ENVS[envname], True, ae)),
+                             "unoptimized": (wrap.format(t=const), render_outcome(wrap.format(t=const), dict(ctx, **mctx), ENVS[envname], False, ae)),
                              "lifted": (wrap.format(t=lifted), render_outcome(wrap.format(t=lifted), dict(ctx, **mctx), ENVS[envname], True, ae))}
             if envname != "default" and cls != "TemplateData":
                 continue
@@ -1859,7 +1984,8 @@ def native_family_replay(cls_name, include_known=False):
     cls_name = alias.get(cls_name, cls_name)
     generic = cls_name in (None, "optimizer", "evalctx")
     sel = fam[::5] if generic else [e for e in fam if e.cls == cls_name]
-    n, bad = differential(sel, envs=["default", "async"])
+    sel = sel + [e for e in strict_members() if generic or e.cls == cls_name]
+    n, bad = differential(sel, envs=["default", "async", "strict"])
     n2, bad2 = differential_extra(cls_name) if cls_name in ("Const", "TemplateData") else (0, [])
     hits = [b for b in bad + bad2 if (generic or b[0].split(":")[0] == cls_name) and (include_known or b[0] not in known_keys())]
     if hits:
@@ -1891,6 +2017,12 @@ def hash_(e):
     return sum(map(ord, e.fmt))
 
 
+def strict_members():
+    if not _STRICT:
+        _STRICT.extend(strict_family())
+    return _STRICT
+
+
 class Differential(FnTask):
     """bounded stand-in for the end-to-end statement (one task per part of the family; all report under C08.bounded.differential)"""
 
@@ -1904,7 +2036,7 @@ class Differential(FnTask):
 
     def members(self, tier):
         if self.part == "extras":
-            return finalize_family()
+            return finalize_family() + strict_members()
         fam = [e for e in family() if PARTS[self.part](e)]
         if tier == "quick":
             fam = fam[::3] + [e for e in fam if e.cls in ("Concat", "Dict", "Getitem")][1::3]
@@ -2022,7 +2154,7 @@ def roundtrip_family():
     inf, nan = float("inf"), float("nan")
     vals = [
         ("none", None), ("true", True), ("false", False), ("notimplemented", NotImplemented), ("ellipsis", Ellipsis),
-        ("int0", 0), ("int-1", -1), ("int2**64", 2 ** 64), ("int-2**200", -(2 ** 200)), ("int4300digits", 10 ** 4299), ("int4301digits", 10 ** 4300),
+        ("int0", 0), ("int-1", -1), ("int-3", -3), ("float-1.5", -1.5), ("int2**64", 2 ** 64), ("int-2**200", -(2 ** 200)), ("int4300digits", 10 ** 4299), ("int4301digits", 10 ** 4300),
         ("float0", 0.0), ("float-0", -0.0), ("float1.5", 1.5), ("float0.1", 0.1), ("floatmax", 1.7976931348623157e308), ("floatmin", 5e-324),
         ("float1e16", 1e16), ("float1e-7", 1e-7), ("inf", inf), ("-inf", -inf), ("nan", nan),
         ("complex1j", 1j), ("complex-0", complex(0.0, -0.0)), ("complex1+2j", 1 + 2j), ("complexinf", complex(inf, 1)), ("complexnan", complex(1, nan)),
@@ -2072,6 +2204,15 @@ def roundtrip_case(name, v):
         return False, f"text-raises-{type(ex).__name__}:{what}", f"visit_Const writes `{txt[:60]}` for the constant {name}; evaluating it in the template module raises {type(ex).__name__}: {ex}"
     if not _nan_eq(back, v):
         return False, f"different-value:{name}", f"visit_Const writes `{txt[:60]}` for the constant {name} which evaluates to {back!r}"
+    if type(v) in (int, float, complex) and not (isinstance(v, float) and math.isnan(v)):
+        # the text is written into operator expressions: `(<text> ** x)` must mean (v ** x)
+        try:
+            powered = eval(f"({txt} ** 2)", module_namespace())
+            if not _nan_eq(powered, v ** 2):
+                return False, "operand-position:unary-minus-binds-looser-than-power", (f"visit_Const writes `{txt[:40]}` for the constant {name}; as left operand of ** the generated "
+                                                                                        f"`({txt[:20]} ** 2)` evaluates to {powered!r}, not {v ** 2!r}")
+        except (OverflowError, ZeroDivisionError):
+            pass
     return True, "", ""
 
 
@@ -2082,7 +2223,8 @@ def roundtrip(task, tier, seed):
     for i, (name, v) in enumerate(vals):
         ok, key, detail = roundtrip_case(name, v)
         if not C.has_safe_repr(v):
-            rs.append(Res(f"C08.const.roundtrip#p{i}", "refuted", "table", 0, f"has_safe_repr rejects the representable constant {name}", "table", {"name": name, "key": "rejected:" + name}))
+            # not claimed representable: such a value is never written by visit_Const through folding (Const.from_untrusted refuses it)
+            rs.append(Res(f"C08.const.roundtrip#p{i}", "discharged", "table", 0, f"has_safe_repr refuses {name}", "table"))
             continue
         rs.append(Res(f"C08.const.roundtrip#p{i}", "discharged" if ok else "refuted", "table", 0, detail, "table", None if ok else {"name": name, "key": key}))
     for i, (name, v) in enumerate(unsafe):
